@@ -72,7 +72,12 @@ def run(ctx):
                 B = ctx.rng.choice([30, 60, 100, 150]); hi = ctx.rng.choice([9, 2000])
                 D = [[ctx.rng.randint(0, hi) for _ in range(n)] for _ in range(B)]
             pv = [ctx.rng.choice(LADDER[:-1] + [Fr(ctx.rng.randint(1, B + c - 1), B + c)]) for _ in range(n)]
-            if ctx.rng.random() < 0.7:
+            if ctx.rng.random() < 0.25:
+                # a partial p-value far below machine epsilon next to one that is exactly 1: the Liptak statistic is inf - inf
+                pv = [ctx.rng.choice([Fr(1, 10**17), Fr(1, 10**300), Fr(1), Fr(1), Fr(9, 10), Fr(ctx.rng.randint(1, B + c - 1), B + c)]) for _ in range(n)]
+                pv[ctx.rng.randrange(n)] = ctx.rng.choice([Fr(1, 10**17), Fr(1, 10**300)])
+                boundary = False; ctx.count("liptak-tiny-and-one")
+            elif ctx.rng.random() < 0.7:
                 # one coordinate at the boundary, the others equal or adjacent to the p-values of the row that is lowest in that
                 # column: that row's statistic and the observed one then differ by about the boundary coordinate only
                 i0 = ctx.rng.randrange(n); P0 = row_pvals_exact(D, plus1)
@@ -210,6 +215,36 @@ def run(ctx):
             elif vals2[kname][0] != "ok" or vals2[kname][1] > v[1] + 1e-12:
                 ctx.violation("oracle", {"call": kname, "pvalues": p.tolist(), "raised": q.tolist(), "size": size.tolist(),
                                          "issue": "combining function increased when a p-value was raised", "before": v[1], "after": vals2[kname][1:]}, site=kname)
+    # ---- user combining functions that are NOT symmetric in their arguments (per-test weights): the result must be the rank
+    #      p-value of the definition with every weight staying on its own test, and relabelling tests *with their weights* changes nothing
+    for _ in range(ctx.n(200, 2500)):
+        B = ctx.rng.randint(3, 20); n = ctx.rng.randint(2, 4); plus1 = ctx.rng.random() < 0.5; c = 1 if plus1 else 0
+        D = [[ctx.rng.randint(0, ctx.rng.choice([2, 4, 9])) for _ in range(n)] for _ in range(B)]
+        kindp = ctx.rng.choice(["sorted", "reversed", "random"])
+        vals = sorted(ctx.rng.sample(range(1, B + c + 1), min(n, B + c))); vals += [vals[-1]] * (n - len(vals))
+        if kindp == "reversed":
+            vals = vals[::-1]
+        elif kindp == "random":
+            ctx.rng.shuffle(vals)
+        pv = [Fr(v, B + c) for v in vals]
+        w = ctx.rng.sample([Fr(1), Fr(1, 2), Fr(1, 4), Fr(2), Fr(4), Fr(1, 8)], n)
+        wa = np.array([float(t) for t in w])
+        f_w = lambda p, wa=wa: -np.dot(wa, p)
+        name_w = "negwsum:" + " ".join(str(t) for t in w)
+        r0 = guarded(npc.npc, np.array([float(t) for t in pv]), np.array(D, dtype=float), combine=f_w, plus1=plus1)
+        det = {"call": "npc", "pvalues": [str(t) for t in pv], "distr": D, "combine": "lambda p: -dot(w, p)", "weights": [str(t) for t in w], "plus1": plus1}
+        ctx.case(("weighted", tuple(pv), tuple(map(tuple, D)), tuple(w), plus1), True, det); ctx.count("weighted-user-combiner-" + kindp)
+        ge, amb = npc_exact(pv, D, name_w, plus1)
+        k0 = numerator_of(r0[1], B + c) if r0[0] == "ok" else None
+        if k0 is None or not (ge + c - amb <= k0 <= ge + c):
+            det.update({"issue": "weighted user combiner: not (c + #{rows whose combined statistic >= observed})/(c + B) with every weight on its own test",
+                        "returned": str(r0[1:])[:80], "expected": f"{ge + c}/{B + c}", "ambiguous_ties": amb}); ctx.violation("oracle", det, site="npc"); continue
+        perm = list(range(n)); ctx.rng.shuffle(perm)
+        wp = np.array([float(w[j]) for j in perm])
+        r1 = guarded(npc.npc, np.array([float(pv[j]) for j in perm]), np.array([[row[j] for j in perm] for row in D], dtype=float), combine=(lambda p, wp=wp: -np.dot(wp, p)), plus1=plus1)
+        if amb == 0 and (r1[0] != "ok" or r1[1] != r0[1]):
+            det.update({"issue": "relabelling the partial tests together with their weights changed the global p-value", "perm": perm, "before": float(r0[1]), "after": str(r1[1:])[:80]})
+            ctx.violation("oracle", det, site="npc")
     # ---- many small p-values: products around the underflow boundary of doubles (1e-308 normal, 5e-324 smallest subnormal).
     #      No formula comparison here (np.prod legitimately underflows to 0 and Fisher becomes +inf); what must survive is
     #      antitonicity of the combining functions and monotonicity of npc in every observed p-value.
